@@ -1397,7 +1397,7 @@ pub fn run(args: &Args, out: &mut Out) {
         out.stat(&format!("{{\"mode\":\"replay\",\"hist\":{}}}", hist.json()));
         return;
     }
-    let n = args.n.unwrap_or(if args.thorough() { 2500 } else { 130 });
+    let n = args.n.unwrap_or(if args.thorough() { 4000 } else { 250 });
     let mut rng = Rng::new(args.seed);
     for _ in 0..n {
         let seed = rng.next() >> 16;
